@@ -762,3 +762,120 @@ func TestRaceMissingNodesWithWriter(t *testing.T) {
 		ev.Case(fmt.Sprint(len(content), removed, nreaders, rounds), len(dw.Missing) > 0, "missing-node-readers-with-writer")
 	})
 }
+
+// One writer keeps updating the values of existing keys (every update replaces the path from the leaf to the root and
+// removes the replaced nodes from the store) while several readers look keys up and iterate. No key is ever removed,
+// so every lookup must succeed; the values a reader sees for one key never go back in the writer's order; an iteration
+// yields every key once with a value that key has had.
+func TestRaceReadersDuringUpdates(t *testing.T) {
+	ev.Rapid(t, 10, 80)
+	rapid.Check(t, func(rt *rapid.T) {
+		nkeys := gen.Uniform(rt, 8, 60, "nkeys")
+		nupd := gen.Uniform(rt, 200, 900, "nupdates")
+		nreaders := gen.Uniform(rt, 2, 6, "nreaders")
+		version := int64(gen.Uniform(rt, 0, 2, "version"))
+		keyOf := func(i int) string { return fmt.Sprintf("%02x%02x%02x", (i*7)%256, (i*13)%256, i%256) }
+		valOf := func(i, seq int) []byte { return []byte{byte(seq >> 8), byte(seq), byte(i), 0x3a} }
+		seqOf := func(v []byte) int { return int(v[0])<<8 | int(v[1]) }
+		var db util.NodeDB = util.NewMemoryNodeDB()
+		if gen.Chance(rt, 50, "layered") {
+			db = util.NewLevelNodeDB(util.NewMemoryNodeDB(), util.NewMemoryNodeDB(), false)
+		}
+		mpt := mptkit.NewTrie(db, version, nil)
+		for i := 0; i < nkeys; i++ {
+			if _, err := mpt.Insert(util.Path(keyOf(i)), mptkit.Val(valOf(i, 0))); err != nil {
+				rt.Fatalf("HARNESS: %v", err)
+			}
+		}
+		upd := make([]int, nupd)
+		for j := range upd {
+			upd[j] = gen.Uniform(rt, 0, nkeys-1, "upd")
+		}
+		var mu sync.Mutex
+		failure := ""
+		fail := func(f string, a ...any) {
+			mu.Lock()
+			if failure == "" {
+				failure = fmt.Sprintf(f, a...)
+			}
+			mu.Unlock()
+		}
+		done := make(chan struct{})
+		var wg sync.WaitGroup
+		var reads atomic.Int64
+		wg.Add(1)
+		go func() {
+			defer wg.Done()
+			defer close(done)
+			for j, i := range upd {
+				if _, err := mpt.Insert(util.Path(keyOf(i)), mptkit.Val(valOf(i, j+1))); err != nil {
+					fail("Insert: %v", err)
+					return
+				}
+			}
+		}()
+		for r := 0; r < nreaders; r++ {
+			r := r
+			wg.Add(1)
+			go func() {
+				defer wg.Done()
+				defer func() {
+					if rr := recover(); rr != nil {
+						fail("reader panic: %v", rr)
+					}
+				}()
+				last := make([]int, nkeys)
+				for n := 0; ; n++ {
+					select {
+					case <-done:
+						return
+					default:
+					}
+					i := (n*7 + r*3) % nkeys
+					if r == 0 && n%16 == 15 {
+						seen := 0
+						err := mpt.Iterate(context.Background(), func(_ context.Context, path util.Path, _ util.Key, node util.Node) error {
+							vn, ok := node.(*util.ValueNode)
+							if !ok {
+								return fmt.Errorf("iteration handed over %T at %q", node, path)
+							}
+							v := vn.GetValueBytes()
+							if len(v) != 4 || keyOf(int(v[2])) != string(path) {
+								return fmt.Errorf("iteration yielded %q = %x, not a value of that key", path, v)
+							}
+							seen++
+							return nil
+						}, util.NodeTypeValueNode)
+						if err != nil || seen != nkeys {
+							fail("Iterate during updates: %d of %d keys, %v", seen, nkeys, err)
+							return
+						}
+						continue
+					}
+					v, err := mpt.GetNodeValueRaw(util.Path(keyOf(i)))
+					reads.Add(1)
+					if err != nil {
+						fail("lookup of %q, a key that is never removed, failed during updates: %v", keyOf(i), err)
+						return
+					}
+					if len(v) != 4 || int(v[2]) != i || v[3] != 0x3a {
+						fail("lookup of %q returned %x, not a value of that key", keyOf(i), v)
+						return
+					}
+					if s := seqOf(v); s < last[i] {
+						fail("lookup of %q returned the value of update %d after this reader had already seen update %d", keyOf(i), s, last[i])
+						return
+					} else {
+						last[i] = s
+					}
+				}
+			}()
+		}
+		wg.Wait()
+		if failure != "" {
+			rt.Fatalf("%s (keys %d, updates %d, readers %d)", failure, nkeys, nupd, nreaders)
+		}
+		ev.ExtraAdd("lookups_concurrent_with_updates", reads.Load())
+		ev.Case(fmt.Sprintf("readers-during-updates/%d/%d/%d/%v", nkeys, nupd, nreaders, upd), true, "readers-during-updates")
+	})
+}
